@@ -240,6 +240,9 @@ class CallMixin:
         if name == "is_none":
             v = self.ev(node.args[0], st)
             return VBool(isinstance(v, VNone))
+        if name == "is_real":
+            v = self.ev(node.args[0], st)
+            return VBool(isinstance(v, (VReal, VInt)))
         if name == "real":
             return VReal(self.to_real(self.ev(node.args[0], st)))
         if name in self.specs:
@@ -285,6 +288,8 @@ class CallMixin:
                     args.extend(v.items)
                 else:
                     raise OutOfSubset(f"line {node.lineno}: *args of {v!r}")
+            elif isinstance(node.func, ast.Name) and node.func.id == "isinstance" and len(args) == 1:
+                args.append(NONE)  # the class expression (e.g. `int | float`) is read from the AST by isinstance_v
             else:
                 args.append(self.ev(a, st))
         kwargs = {}
